@@ -105,6 +105,26 @@ def _client_case(ops, impl):
             st["viol"].append((i, "C15", "write or handler invocation after Close returned: " + r[:120]))
         if t[1] == "deliver":
             st["delivered"].append(t[2])
+        if "reader" in f and f["reader"] != "exited":
+            st["viol"].append((i, "C15", "Close returned while the reader goroutine was still inside Read: " + r[:120]))
+        if t[1] == "conc":
+            want = 0 if st["closed"] else 1
+            if int(f.get("closes", -1)) != want:
+                st["viol"].append((i, "C15", f"{f.get('closes')} of the concurrent Close calls succeeded, expected {want}"))
+            if not st["closed"]:
+                st["closed"] = True
+                st["pending_at_close"] = {h for h, s_ in st["started"].items() if s_["ok"] and h not in st["calls"]}
+                wantc = 0 if st["noclose"] else 1
+                if st["connclose"] != wantc:
+                    st["viol"].append((i, "C15", f"connection closed {st['connclose']} times, expected {wantc}"))
+            continue
+        if t[1] == "do":
+            st["delivered"].append(t[4])
+            if f.get("do") == "before-callback":
+                st["viol"].append((i, "C10", f"Do returned before its callback had finished (h{t[5]})"))
+            if r.startswith("do-hang"):
+                st["viol"].append((i, "C10", f"Do did not return although its response was delivered (h{t[5]})"))
+            t = ["CL", "start", t[2], t[3], t[5]]
         if t[1] == "start":
             ok = f.get("ret") == "ok"
             if st["closed"] and (f.get("ret") != "client-closed" or wr):
@@ -137,7 +157,7 @@ def _client_case(ops, impl):
             elif s_["id"] != cid:
                 st["viol"].append((i, "C12", f"handler h{h} (id {s_['id']}) received an event for id {cid}"))
             elif kind.startswith("msg:"):
-                raw = kind[4:]
+                raw = kind[4:].split("/")[0]
                 if not any(d[:2048] == raw for d in st["delivered"]):
                     st["viol"].append((i, "C12", f"handler h{h} saw a message that is not a delivered datagram"))
         if t[1] == "close" and f.get("ret") in ("ok", "close-err") and not st["closed"]:
@@ -179,6 +199,7 @@ STREAMS = {
     "uri-dial": {"n": {"quick": 1, "thorough": 1}, "nontrivial": None},
     "agent-conc": {"n": {"quick": 30, "thorough": 600}, "nontrivial": None},
     "client-hist": {"n": {"quick": 3, "thorough": 4}, "nontrivial": None, "timeout": 3000},
+    "client-conc": {"n": {"quick": 60, "thorough": 2000}, "nontrivial": None, "timeout": 3000},
     "integrity": {"n": {"quick": 150, "thorough": 6000}, "nontrivial": nt_any, "predicate": pred_expect_reject},
     "fingerprint": {"n": {"quick": 100, "thorough": 5000}, "nontrivial": nt_any, "predicate": pred_expect_reject},
 }
@@ -403,7 +424,8 @@ PROPS = {
                      "Stun.ClientProofs.callback_spec", "Stun.ClientProofs.retransmit_spec"],
         "streams": ["client-hist"], "level": "proof", "predicate": pred_client("C10"),
         "tagsets": [["verif"], ["verif", "race"]],
-        "rule": CLIENT_RULE,
+        "rule": CLIENT_RULE + "; Client.Do with the response handled while Start is still inside Write and a callback that "
+                "takes 10 ms: Do must return, and only after the callback finished",
         "explanation": "full statement (exactly once, with a closed error on Close) is false on the unchanged tree: known "
                        "finding F6; proved: at most once, never unstarted, exactly-once-or-still-registered. "
                        "Interleavings inside one event (L2, known finding K1) are not expressible at this level.",
@@ -419,7 +441,7 @@ PROPS = {
     "C12": {
         "modules": ["Stun.Properties.C12"],
         "theorems": ["Stun.C12.delivery_by_id", "Stun.C12.message_is_datagram", "Stun.C12.unknown_to_fallback_only",
-                     "Stun.C12.garbage_is_noop"],
+                     "Stun.C12.garbage_is_noop", "Stun.C12.reader_message_is_decode"],
         "streams": ["client-hist"], "level": "proof", "predicate": pred_client("C12"),
         "rule": CLIENT_RULE + "; ids differing in one bit, datagrams longer than the 1024-byte reader buffer, unknown ids "
                 "and garbage interleaved",
@@ -428,11 +450,14 @@ PROPS = {
         "modules": ["Stun.Properties.C15"],
         "theorems": ["Stun.C15.close_once", "Stun.C15.after_close_rejects", "Stun.C15.no_output_after_close",
                      "Stun.C15.close_establishes"],
-        "streams": ["client-hist"], "level": "proof", "predicate": pred_client("C15"),
+        "streams": ["client-hist", "client-conc"], "level": "proof", "predicate": pred_client("C15"),
         "tagsets": [["verif"], ["verif", "race"]],
         "rule": CLIENT_RULE + "; option combinations default / WithNoConnClose / fallback handler / no-retransmit, agent and "
                 "connection Close errors, several Close calls; under WithNoConnClose the scripted Read is interrupted "
-                "so that the reader can exit; also built with -race",
+                "only a moment after Close was called (a Close that returns earlier did not wait for the reader); "
+                "stream client-conc: 2..16 goroutines race >= 2 Close calls with Start/Indicate/SetRTO (collector Close "
+                "takes 2 ms so that the calls overlap), exactly one Close may succeed and the connection is closed once; "
+                "also built with -race",
         "assumptions": ["goroutine exit, data races and deadlocks are runtime facts (harness: Close must return within "
                         "20 s; -race build), not theorems"],
     },
